@@ -52,6 +52,46 @@ func genLazy(g *vlib.G) {
 			return ""
 		})
 	})
+	// every goroutine needs the lazily built covariance matrix of one shared, fresh distribution
+	for _, n := range []int{2, 3} {
+		n := n
+		g.Case(fmt.Sprintf("Wishart first MeanSymTo from %d goroutines", n), func(t *vlib.T) {
+			dim := 6
+			v := mat.NewSymDense(dim, nil)
+			for i := 0; i < dim; i++ {
+				for j := i; j < dim; j++ {
+					v.SetSym(i, j, float64((i*3+j)%4))
+				}
+				v.SetSym(i, i, float64(20+i))
+			}
+			ref, ok := distmat.NewWishart(v, 9, nil)
+			if !ok {
+				panic("not PD")
+			}
+			var want mat.SymDense
+			ref.MeanSymTo(&want)
+			means := make([]mat.SymDense, n)
+			body := func() {
+				w, _ := distmat.NewWishart(v, 9, nil)
+				var wg sync.WaitGroup
+				wg.Add(n)
+				for k := 0; k < n; k++ {
+					k := k
+					means[k] = mat.SymDense{}
+					go func() { defer wg.Done(); w.MeanSymTo(&means[k]) }()
+				}
+				wg.Wait()
+			}
+			explore(t, g, true, body, func(x *vsched.Exec) string {
+				for k := range means {
+					if !mat.Equal(&means[k], &want) {
+						return fmt.Sprintf("MeanSymTo in goroutine %d differs from the serial result", k)
+					}
+				}
+				return ""
+			})
+		})
+	}
 	g.Case("card.RegisterHash || Marshal/Unmarshal", func(t *vlib.T) {
 		var errs [2]error
 		var counts [2]float64
